@@ -19,12 +19,12 @@ def job(seed):
         if r.returncode != 0:
             return seed, {'error': 'patch does not apply'}
         for p in props:
-            q = subprocess.run([sys.executable, os.path.join(V, 'vp', 'check.py'), p, '--no-evidence'], env=dict(os.environ, VP_REPO=d), capture_output=True, text=True)
+            q = subprocess.run([sys.executable, os.path.join(V, 'vp', 'check.py'), p, '--no-evidence'], env=dict(os.environ, VP_REPO=d, VP_GEN=d + '_gen'), capture_output=True, text=True)
             viol = [l.split('replay=')[1].split('/')[-1][:90] for l in q.stdout.split('\n') if l.startswith('VIOLATION')]
             out[p] = {'rc': q.returncode, 'violations': viol[:4]}
             print(seed, p, q.returncode, viol[:2], flush=True)
     finally:
-        shutil.rmtree(d, ignore_errors=True)
+        shutil.rmtree(d, ignore_errors=True); shutil.rmtree(d + '_gen', ignore_errors=True)
     return seed, out
 
 with ThreadPoolExecutor(max_workers=workers) as ex:
